@@ -106,6 +106,10 @@ class AsyncManager(BaseManager):
         callback = None
         try:
             callback = self.callbacks[sid][id]
+            if not callable(callback):
+                # key 0 holds the ack id generator, it is not a callback
+                callback = None
+                raise KeyError(id)
         except KeyError:
             # if we get an unknown callback we just ignore it
             self._get_logger().warning('Unknown callback received, ignoring.')
